@@ -173,6 +173,7 @@ func verifyFunc(p *Prog, db *ContractDB, fc *FuncContract, prop string) (u *Unit
 	x.top = fn
 	x.topName = fn.String()
 	x.topC = fc
+	x.loopOwner = fc
 	x.overflowOn = fc.Overflow
 	x.safetyOn = fc.Safety
 	if fc.Depth >= 0 {
@@ -312,6 +313,7 @@ func sweepFunc(p *Prog, db *ContractDB, fn *ssa.Function, prop string, sweepSet 
 	if fc, ok := db.Funcs[fn.String()]; ok {
 		// a contract exists (verified separately): use its precondition and inline hints
 		fr.contract = fc
+		x.loopOwner = fc
 		env := &SpecEnv{x: x, names: map[string]specVal{}, st: st, old: st, fr: fr}
 		env.pkg = x.pkgOfContract(fc.Pkg, fn)
 		for _, r := range fc.Requires {
